@@ -83,7 +83,7 @@ class Session:
         self.note_denoms(op)
         r = self.h.op(op)
         step = {"i": len(self.steps), "pre": self.obs, "op": op, "outcome": r["outcome"], "err": r["err"],
-                "msgs": r["msgs"], "post": r["obs"], "tag": tag, "market_calls": r["market_calls"], "emitted": r.get("emitted", 0)}
+                "msgs": r["msgs"], "post": r["obs"], "tag": tag, "market_calls": r["market_calls"], "emitted": r.get("emitted", 0), "nested": r.get("nested")}
         if r["obs"] == self.obs:
             step["post"] = self.obs  # share the object
         self.obs = step["post"]
